@@ -35,7 +35,9 @@ def sh(s): return hx(s.encode())
 
 def messages(rng, n):
     base = ['', 'a', 'The test!', 'é' * 200, 'é' * 126, 'é' * 127, 'x' * 252, 'x' * 253, 'x' * 254, '漢字' * 40, 'x' * 65535, 'y' * 65536, 'z' * 70000,
-            'line\nbreak\t tab', '\x00\x01', '😀 emoji']
+            'line\nbreak\t tab', '\x00\x01', '😀 emoji',
+            # strings that a Unicode normalisation (NFC/NFKC/NFD) would change: the bytes signed are the UTF-8 of the string as given
+            'e\u0301le\u0300ve', 'A\u030a \u212b \u2126 \u212a', '\u1112\u1161\u11ab', '\uf900\uf901', '\ufb01 \u00bd \uff21', 'caf\u00e9 vs cafe\u0301']
     out = list(base)
     for _ in range(n):
         ln = rng.choice([1, 5, 20, 100, 252, 253, 300] + [v for v in G.source_literals() if v <= 1000])
